@@ -1459,8 +1459,12 @@ static void wcoll_apply_excluded (opt_t *opt, List excludes)
         hostlist_t hl = hostlist_create (arg);
         char *host;
 
+        /*
+         *  An exclusion that cannot be read must not be skipped: the
+         *   hosts it was meant to name would be contacted.
+         */
         if (hl == NULL)
-            continue;
+            errx ("%p: invalid host exclusion \"%s\"\n", arg);
         while ((host = hostlist_shift (hl))) {
             hostlist_delete (opt->wcoll, host);
             free (host);
